@@ -1,0 +1,96 @@
+//go:build verif
+
+package pppoe
+
+import (
+	"net"
+	"sync"
+
+	"go.uber.org/zap"
+)
+
+// VerifSocket is an in-memory rawSocket: frames the server sends are recorded, nothing is read.
+type VerifSocket struct {
+	mu   sync.Mutex
+	Sent [][]byte
+}
+
+func (v *VerifSocket) open(iface string, etherType uint16) error { return nil }
+func (v *VerifSocket) close() error                               { return nil }
+func (v *VerifSocket) recv(buf []byte) (int, error)               { select {} }
+func (v *VerifSocket) send(iface string, dstMAC net.HardwareAddr, etherType uint16, data []byte) error {
+	v.mu.Lock()
+	defer v.mu.Unlock()
+	v.Sent = append(v.Sent, append([]byte{}, data...))
+	return nil
+}
+
+// Take returns and clears the frames recorded so far.
+func (v *VerifSocket) Take() [][]byte {
+	v.mu.Lock()
+	defer v.mu.Unlock()
+	out := v.Sent
+	v.Sent = nil
+	return out
+}
+
+// Len returns the number of recorded frames.
+func (v *VerifSocket) Len() int {
+	v.mu.Lock()
+	defer v.mu.Unlock()
+	return len(v.Sent)
+}
+
+// NewVerifServer builds a server on an in-memory socket (no interface is opened, no
+// receive loop runs); frames are injected with VerifHandleDiscovery / VerifHandleSession.
+func NewVerifServer(cfg ServerConfig, logger *zap.Logger, iface *net.Interface) (*Server, *VerifSocket, error) {
+	s, err := newServerWithInterface(cfg, logger, iface)
+	if err != nil {
+		return nil, nil, err
+	}
+	sock := &VerifSocket{}
+	s.socket = sock
+	return s, sock, nil
+}
+
+// VerifHandleDiscovery feeds the payload of a discovery frame (after the Ethernet header)
+// from srcMAC to the server exactly as the receive loop would.
+func (s *Server) VerifHandleDiscovery(srcMAC net.HardwareAddr, payload []byte) {
+	s.handleDiscovery(srcMAC, payload)
+}
+
+// VerifHandleSession feeds the payload of a session frame from srcMAC to the server.
+func (s *Server) VerifHandleSession(srcMAC net.HardwareAddr, payload []byte) {
+	s.handleSession(srcMAC, payload)
+}
+
+// VerifSession is a read-only copy of the fields of a session the properties talk about.
+type VerifSession struct {
+	ID            uint16
+	ClientMAC     string
+	State         string
+	Authenticated bool
+	ClientIP      net.IP
+	SessionID     string
+}
+
+// VerifSessions returns a snapshot of the session table.
+func (s *Server) VerifSessions() []VerifSession {
+	var out []VerifSession
+	for _, ss := range s.sessions.GetAllSessions() {
+		ss.mu.RLock()
+		v := VerifSession{ID: ss.ID, ClientMAC: ss.ClientMAC.String(), State: ss.State.String(), Authenticated: ss.Authenticated, SessionID: ss.SessionID}
+		if ss.ClientIP != nil {
+			v.ClientIP = append(net.IP{}, ss.ClientIP...)
+		}
+		ss.mu.RUnlock()
+		out = append(out, v)
+	}
+	return out
+}
+
+// VerifSessionManager exposes the session manager (for the cleanup path).
+func (s *Server) VerifSessionManager() *SessionManager { return s.sessions }
+
+// VerifPool exposes the client address pool.
+func (s *Server) VerifPool() *IPPool { return s.clientIPPool }
